@@ -302,7 +302,6 @@ void qsbr::unregister_thread(std::uint64_t quiescent_states_since_epoch_change,
     noexcept
 #endif
 {
-  bool epoch_change_prepared = false;
   UNODB_DETAIL_VERIF_POINT(detail::verif_qsbr_load, &state, sizeof(state), 0);
   auto old_state = state.load(std::memory_order_acquire);
 
@@ -339,25 +338,69 @@ void qsbr::unregister_thread(std::uint64_t quiescent_states_since_epoch_change,
     const auto advance_epoch =
         remove_thread_from_old_epoch && (old_threads_in_previous_epoch == 1);
 
+    if (UNODB_DETAIL_UNLIKELY(advance_epoch)) {
+      // This is the last thread in the previous epoch. Commit to the epoch
+      // change first, by taking this thread out of the previous epoch while it
+      // still counts as a registered thread, exactly as the quiescent state
+      // path does. From this point on no other thread can start an epoch
+      // change: threads that register or unregister only adjust the thread
+      // count, and the registering ones wait for the new epoch. Only then
+      // handle the global orphans, so that it is done exactly once per epoch
+      // change and never without one. Doing it before the state change made
+      // the orphaned requests age by one interval whenever that state change
+      // lost a race to a registering thread and had to be retried as a
+      // non-advancing one.
+      thread_epoch_change_barrier();
+      auto committed_state =
+          qsbr_state::dec_threads_in_previous_epoch(old_state);
+      UNODB_DETAIL_VERIF_POINT(detail::verif_qsbr_rmw, &state, sizeof(state),
+                               committed_state);
+      if (UNODB_DETAIL_UNLIKELY(!state.compare_exchange_weak(
+              old_state, committed_state, std::memory_order_acq_rel,
+              std::memory_order_acquire)))
+        continue;
+
+      epoch_change_barrier_and_handle_orphans(old_single_thread_mode);
+
+      while (true) {
+        const auto new_state = qsbr_state::inc_epoch_reset_previous(
+            qsbr_state::dec_thread_count(committed_state));
+        UNODB_DETAIL_VERIF_POINT(detail::verif_qsbr_rmw, &state, sizeof(state),
+                                 new_state);
+        if (UNODB_DETAIL_LIKELY(state.compare_exchange_weak(
+                committed_state, new_state, std::memory_order_acq_rel,
+                std::memory_order_acquire)))
+          break;
+      }
+
+      // Might be the first time the quitting thread saw the old epoch too, if a
+      // second-to-last thread quit before, advancing the epoch.
+      qsbr_thread.advance_last_seen_epoch(old_single_thread_mode, old_epoch);
+#ifdef UNODB_DETAIL_WITH_STATS
+      bump_epoch_change_count();
+#endif  // UNODB_DETAIL_WITH_STATS
+      qsbr_thread.execute_previous_requests(old_single_thread_mode,
+                                            old_epoch.advance());
+      qsbr_thread.orphan_pending_requests();
+
+#ifdef UNODB_DETAIL_WITH_STATS
+      if (UNODB_DETAIL_UNLIKELY(thread_epoch != old_epoch)) {
+        register_quiescent_states_per_thread_between_epoch_changes(
+            quiescent_states_since_epoch_change);
+      }
+#endif  // UNODB_DETAIL_WITH_STATS
+
+      return;
+    }
+
     const auto new_state =
         UNODB_DETAIL_UNLIKELY(remove_thread_from_old_epoch)
-            ? qsbr_state::
-                  dec_thread_count_threads_in_previous_epoch_maybe_advance(
-                      old_state, advance_epoch)
+            ? qsbr_state::dec_thread_count_and_threads_in_previous_epoch(
+                  old_state)
             : qsbr_state::dec_thread_count(old_state);
 
-    if (UNODB_DETAIL_UNLIKELY(remove_thread_from_old_epoch)) {
+    if (UNODB_DETAIL_UNLIKELY(remove_thread_from_old_epoch))
       thread_epoch_change_barrier();
-
-      if (UNODB_DETAIL_UNLIKELY(advance_epoch) &&
-          UNODB_DETAIL_LIKELY(!epoch_change_prepared)) {
-        // Handle global orphans only once for one epoch change. We cannot do
-        // this after setting the new state as then other threads may proceed
-        // with subsequent epoch changes.
-        epoch_change_barrier_and_handle_orphans(old_single_thread_mode);
-        epoch_change_prepared = true;
-      }
-    }
 
     UNODB_DETAIL_VERIF_POINT(detail::verif_qsbr_rmw, &state, sizeof(state),
                              new_state);
@@ -367,13 +410,6 @@ void qsbr::unregister_thread(std::uint64_t quiescent_states_since_epoch_change,
       // Might be the first time the quitting thread saw the old epoch too, if a
       // second-to-last thread quit before, advancing the epoch.
       qsbr_thread.advance_last_seen_epoch(old_single_thread_mode, old_epoch);
-      if (UNODB_DETAIL_UNLIKELY(advance_epoch)) {
-#ifdef UNODB_DETAIL_WITH_STATS
-        bump_epoch_change_count();
-#endif  // UNODB_DETAIL_WITH_STATS
-        qsbr_thread.execute_previous_requests(old_single_thread_mode,
-                                              old_epoch.advance());
-      }
       qsbr_thread.orphan_pending_requests();
 
 #ifdef UNODB_DETAIL_WITH_STATS
